@@ -100,6 +100,8 @@ class SyncPlan(object):
             sizes = list(self.split_sizes)
         elif mode == "random":
             sizes = "random"
+        elif mode == "blocks":
+            sizes = [self.rng.choice([512, 1024, 4096])]
         else:
             raise ValueError(mode)
         pos = 0
@@ -149,11 +151,21 @@ class SyncPlan(object):
         out = bytearray()
         pos = 0
         i = 0
+        zeros = 0
         while pos < len(content):
-            n = max(1, min(sizes[i % len(sizes)], wire.SYNC_DATA_MAX))
+            n = min(sizes[i % len(sizes)], wire.SYNC_DATA_MAX)
             i += 1
+            if n <= 0:
+                zeros += 1
+                if zeros > 3:
+                    n = 1
+                else:
+                    out += wire.sync_data(b"")      # an empty DATA record is a legal record
+                    continue
             out += wire.sync_data(content[pos:pos + n])
             pos += n
+        if sizes and sizes[0] == 0 and not content:
+            out += wire.sync_data(b"")
         out += wire.sync_done(0)
         return bytes(out)
 
